@@ -16,6 +16,7 @@ from . import net
 
 WINDOW = 20
 SENTINEL_ID = "fffefd"
+SENTINEL_NAME = "~sentinel~"        # a generated device may well carry the id; the name prefix makes a sentinel
 
 
 class _LogTap(logging.Handler):
@@ -73,6 +74,8 @@ class Rig:
         self.log_records = []
         self.py_warnings = []
         self.sentinels_seen = set()
+        self._sentinel_names = set()     # exact names of the sentinels this rig sent (composed at run time: a generator that
+                                         # recycles literals from the harness source cannot produce one)
         self.sentinel_no = 0
         self.bridge = None
         self.tx = socket.socket(socket.AF_INET, socket.SOCK_DGRAM)
@@ -86,7 +89,7 @@ class Rig:
 
     # -- user callback handed to the bridge ---------------------------------------------------
     def on_device(self, device):
-        if getattr(device, "device_id", None) == SENTINEL_ID:
+        if getattr(device, "device_id", None) == SENTINEL_ID and getattr(device, "name", None) in self._sentinel_names:
             self.sentinels_seen.add(getattr(device, "name", ""))
             return
         idx = self.invocations
@@ -215,7 +218,8 @@ class Rig:
             ok = False
             for attempt in range(3):
                 self.sentinel_no += 1
-                name = f"sentinel-{self.sentinel_no}"
+                name = f"{SENTINEL_NAME}{self.sentinel_no}"
+                self._sentinel_names.add(name)
                 self.tx.sendto(self.sentinel_bytes(name), ("127.0.0.1", port))
                 deadline = time.monotonic() + (1.0 if attempt == 0 else 0.3)
                 i = 0
